@@ -6,7 +6,7 @@ set of names the binder recorded as preserved, and shebang answer - while everyt
 recorder: constructing a stage class, calling the stage, and calling an imported function each leave an event (name, arguments) in the trace.
 Helpers defined in __init__.py itself are evaluated normally, so no shape of minify() is assumed.
 """
-from .absint import Interp, Obj, PyCallable, TOP
+from .absint import Interp, Obj, PyCallable, TOP, _Raise
 from .model import AnalysisError
 
 PKG = 'python_minifier'
@@ -41,35 +41,64 @@ def imported_callables(model):
     return out
 
 
-def run(model, entry='minify', args=None, kwargs=None, tainted=False, preserved=(), shebang=None, source='SOURCE'):
+def run(model, entry='minify', args=None, kwargs=None, tainted=False, preserved=(), shebang=None, source='SOURCE', parse_raises=None, fresh_modules=False):
+    """fresh_modules: every transformer stage (and remove_posargs) answers with a *new* module object, so that a stage that is handed a stale
+    tree (result of an earlier stage dropped) is visible in the trace as ('stale', name)."""
     trace = []
-    module = Obj('Module', body=[], type_ignores=[])
-    module.attrs['tainted'] = tainted
-    module.attrs['preserved'] = set(preserved)
+
+    def on_read(o, attr):
+        if attr in ('tainted', 'preserved', 'bindings'):
+            trace.append(('read', attr))
+
+    def new_module():
+        m = Obj('Module', body=[], type_ignores=[])
+        m.attrs['tainted'] = tainted
+        m.attrs['preserved'] = set(preserved)
+        m.attrs['__on_read__'] = on_read
+        return m
+    module = new_module()
+    current = [module]
     hooks = {}
+
+    def note_module(name, a):
+        if a and isinstance(a[0], Obj) and a[0].cls == 'Module' and a[0] is not current[0]:
+            trace.append(('stale', name))
 
     def h_parse(I, e, a, kw, env):
         trace.append(('parse', a[0] if a else kw.get('source'), a[1] if len(a) > 1 else kw.get('filename')))
+        if parse_raises:
+            raise _Raise(parse_raises)
         return module
 
     def mk_stage(name):
         def ctor(I, e, a, kw, env):
             def call(I_, a2, kw2):
+                note_module(name, a2)
                 trace.append(('stage', name, tuple(a), dict(kw), tuple(a2)))
+                if fresh_modules and a2 and a2[0] is current[0]:
+                    current[0] = new_module()
+                    return current[0]
                 return a2[0] if a2 else TOP
             return PyCallable(call, name)
         return ctor
 
     def mk_function(name):
         def fn(I, e, a, kw, env):
+            note_module(name, a)
             trace.append(('call', name, tuple(a), dict(kw)))
-            return a[0] if a and a[0] is module and name in ('remove_posargs',) else None
+            if name == 'remove_posargs' and a and isinstance(a[0], Obj):
+                if fresh_modules and a[0] is current[0]:
+                    current[0] = new_module()
+                    return current[0]
+                return a[0]
+            return None
         return fn
     for name, (kind, q) in imported_callables(model).items():
         hooks[name] = mk_stage(name) if kind == 'stage' else mk_function(name)
     hooks['ast.parse'] = h_parse
 
     def h_unparse(I, e, a, kw, env):
+        note_module('unparse', a)
         trace.append(('call', 'unparse', tuple(a), dict(kw)))
         return 'MINIFIED'
 
